@@ -457,6 +457,10 @@ class RDFReader(object):
 
         :return: list of converted odML documents
         """
+        # The result contains the documents of the current graph only; a reader
+        # that is used again must not return the documents of an earlier import.
+        self.docs = []
+
         docs_uris = list(self.graph.objects(subject=URIRef(ODML_NS.Hub),
                                             predicate=ODML_NS.hasDocument))
         for doc in docs_uris:
